@@ -231,6 +231,7 @@ def explore_all(ctx, prop, exe_san, exe, variant, cov, dist):
     pending = []          # offenders, reported smallest first so that the replay is a small one
 
     newcount, known_kept, known_total = [0], {}, {}
+    sites_seen = set()
 
     def is_known(sig):
         return any(f["property"] == ctx.prop and f.get("status") == "open" and re.fullmatch(f["signature"], sig)
@@ -256,6 +257,8 @@ def explore_all(ctx, prop, exe_san, exe, variant, cov, dist):
                     ctx.disagreement("Fan LTS (%s variant) vs dsh.c" % variant,
                                      "projected trace line %d `%s`: %s" % (bad[0], bad[1], bad[2]), pack(r))
         for r, b in zip(results, batches):
+            if r.get("exe") == os.path.basename(exe):
+                sites_seen.update(r.get("sites") or [])
             cov["evaluations"] += 1
             m = r["M"] or {}
             st = m.get("status", "crash")
@@ -426,6 +429,9 @@ def explore_all(ctx, prop, exe_san, exe, variant, cov, dist):
         if (i // CH) % 5 == 4 or i + CH >= len(cases):
             ctx.log("random schedules: %d/%d" % (min(i + CH, len(cases)), len(cases)))
 
+    # every call site of the protocol operations that exists in dsh.c must have been reached by some run
+    if newcount[0] == 0 and not ctx.broken:
+        cov["call_sites_of_dsh_c"] = sched.site_report(ctx, exe, sites_seen, "this check (plain build)")
     pending.sort(key=lambda t: t[0])
     seen = {}
     for _, sig, what, r in pending:
